@@ -539,3 +539,247 @@ func TestStringLengthsExhaustive(t *testing.T) {
 		}
 	}, checkWire, func(c wireCase) bool { return len(c.Bytes) > 0 })
 }
+
+// ---- an encoding stays what it was when another value is encoded afterwards ---------------------------------
+//
+// "Decodes its own encoding back": the bytes Marshal returned are the caller's. They are kept as returned (not
+// copied), a second, different value of the same type is encoded, and then the first slice is decoded: it must
+// still give the first value and be consumed entirely. (An encoder that hands out a shared scratch buffer
+// passes every check that copies or decodes the result at once.)
+
+type keptCase struct {
+	First  wireCase `json:"first_value"`
+	Second wireCase `json:"second_value"`
+}
+
+func checkKept(c keptCase) []vf.Finding {
+	v1, decode, same, _, err := build(c.First)
+	if err != nil {
+		return []vf.Finding{vf.F("harness", "bad-case", "%v", err)}
+	}
+	v2, _, _, _, err := build(c.Second)
+	if err != nil {
+		return []vf.Finding{vf.F("harness", "bad-case", "%v", err)}
+	}
+	e1, err := v1.Marshal()
+	if err != nil {
+		return nil // a value the encoder refuses: the round-trip sub-check of the type reports it
+	}
+	snapshot := append([]byte{}, e1...)
+	// a value whose encoding does not decode back even from a copy taken at once is the round-trip sub-check's
+	// finding; only what the later Marshal does to the kept slice is judged here
+	if _, decodeCopy, sameCopy, _, err := build(c.First); err != nil {
+		return []vf.Finding{vf.F("harness", "bad-case", "%v", err)}
+	} else if n, err := decodeCopy(append([]byte{}, snapshot...)); err != nil || n != len(snapshot) || sameCopy() != "" {
+		return nil
+	}
+	if _, err := v2.Marshal(); err != nil {
+		return nil
+	}
+	detail := "the kept bytes are unchanged"
+	if !bytes.Equal(e1, snapshot) {
+		detail = fmt.Sprintf("the kept bytes changed from %x to %x", snapshot[:min(len(snapshot), 24)], e1[:min(len(e1), 24)])
+	}
+	n, err := decode(e1)
+	if err != nil {
+		return []vf.Finding{vf.F(c.First.Type+".Marshal", "encoding-not-kept-across-later-marshal", "after encoding another value the first encoding is rejected: %v (%s)", err, detail)}
+	}
+	if msg := same(); msg != "" || n != len(snapshot) {
+		return []vf.Finding{vf.F(c.First.Type+".Marshal", "encoding-not-kept-across-later-marshal", "after encoding another value the first encoding decodes differently (consumed %d of %d): %s (%s)", n, len(snapshot), msg, detail)}
+	}
+	return nil
+}
+
+func TestEncodingKept(t *testing.T) {
+	s := vf.Begin(t, P, "encoding-kept-across-marshal")
+	per := vf.N(150, 600)
+	idx := 0
+	vf.Rapid(s, len(allTypes)*per, func(t *rapid.T) keptCase {
+		typ := allTypes[(idx/per)%len(allTypes)]
+		idx++
+		a, b := genWire(t, typ), genWire(t, typ)
+		a.Suffix, b.Suffix = nil, nil
+		return keptCase{a, b}
+	}, func(c keptCase) []vf.Finding {
+		s.Class("type:" + c.First.Type)
+		return checkKept(c)
+	}, func(c keptCase) bool {
+		return !bytes.Equal(c.First.Bytes, c.Second.Bytes) || !reflect.DeepEqual(c.First.Nums, c.Second.Nums)
+	})
+}
+
+// ---- parameter and data blocks built through their own methods ----------------------------------------------
+//
+// The round trips above assign WordCount/Words and ByteCount/Bytes (or call SetData once). A caller builds a block
+// with the methods the types offer: Parameters.AddWord ("adds the provided word ... and updates the WordCount
+// field to reflect the new count"), Parameters.AddWordsFromBytesStream (two bytes per word, high byte first),
+// Data.Add (appends) and Data.SetData (replaces). After any sequence of such calls that stays inside the block
+// limits (255 words, 65535 bytes) the block is a value in the type's domain: it must encode, and the encoding
+// must decode to as many words as were added, equal to the built block's (exactly the bytes that were added, for Data), consuming exactly its own length.
+
+type apiStep struct {
+	Op    string `json:"op"` // AddWord, AddWordsFromBytesStream, Add, SetData
+	Word  uint16 `json:"word,omitempty"`
+	Bytes vf.Hex `json:"bytes,omitempty"`
+}
+
+type apiCase struct {
+	Type   string    `json:"type"` // Parameters, Data
+	Steps  []apiStep `json:"steps"`
+	Suffix vf.Hex    `json:"suffix,omitempty"`
+}
+
+func (c apiCase) subject() string {
+	seen := map[string]bool{}
+	for _, st := range c.Steps {
+		seen[st.Op] = true
+	}
+	var ops []string
+	for _, op := range []string{"AddWord", "AddWordsFromBytesStream", "Add", "SetData"} {
+		if seen[op] {
+			ops = append(ops, op)
+		}
+	}
+	if len(ops) == 0 {
+		return c.Type + "/no-call"
+	}
+	out := c.Type + "/" + ops[0]
+	for _, op := range ops[1:] {
+		out += "+" + op
+	}
+	return out
+}
+
+func checkBlockAPI(c apiCase) []vf.Finding {
+	subject := c.subject()
+	var enc marshaler
+	var decode func([]byte) (int, error)
+	var same func() string
+	var reenc func() ([]byte, error)
+	switch c.Type {
+	case "Parameters":
+		v := parameters.NewParameters()
+		var words []uint16
+		for _, st := range c.Steps {
+			switch st.Op {
+			case "AddWord":
+				v.AddWord(st.Word)
+				words = append(words, st.Word)
+			case "AddWordsFromBytesStream":
+				b := st.Bytes[:len(st.Bytes)&^1] // whole words only
+				v.AddWordsFromBytesStream(append([]byte{}, b...))
+				for i := 0; i+1 < len(b); i += 2 {
+					words = append(words, uint16(b[i])<<8|uint16(b[i+1]))
+				}
+			default:
+				return []vf.Finding{vf.F("harness", "bad-case", "step %s on Parameters", st.Op)}
+			}
+		}
+		if len(words) > 255 {
+			return []vf.Finding{vf.F("harness", "bad-case", "%d words", len(words))}
+		}
+		d := parameters.NewParameters()
+		enc, decode, reenc = v, d.Unmarshal, func() ([]byte, error) { return d.Marshal() }
+		same = func() string {
+			if int(d.WordCount) != len(words) || len(d.Words) != len(words) {
+				return fmt.Sprintf("decoded WordCount %d and %d words, %d words were added", d.WordCount, len(d.Words), len(words))
+			}
+			// the decoded block against the block that was built, field by field (how a word is held in
+			// memory is the type's own business: only that it comes back the same is asked)
+			if d.WordCount != v.WordCount || !sameFields(d.Words, v.Words) || !bytes.Equal(d.GetBytes(), v.GetBytes()) {
+				return fmt.Sprintf("decoded words %x, built words %x", d.GetBytes(), v.GetBytes())
+			}
+			return ""
+		}
+	case "Data":
+		v := data.NewData()
+		var content []byte
+		for _, st := range c.Steps {
+			switch st.Op {
+			case "Add":
+				v.Add(append([]byte{}, st.Bytes...))
+				content = append(content, st.Bytes...)
+			case "SetData":
+				v.SetData(append([]byte{}, st.Bytes...))
+				content = append([]byte{}, st.Bytes...)
+			default:
+				return []vf.Finding{vf.F("harness", "bad-case", "step %s on Data", st.Op)}
+			}
+		}
+		if len(content) > 65535 {
+			return []vf.Finding{vf.F("harness", "bad-case", "%d bytes", len(content))}
+		}
+		d := data.NewData()
+		enc, decode, reenc = v, d.Unmarshal, func() ([]byte, error) { return d.Marshal() }
+		same = func() string {
+			if int(d.ByteCount) != len(content) || !bytes.Equal(d.Bytes, content) {
+				return fmt.Sprintf("decoded ByteCount %d and %d bytes, %d bytes were added", d.ByteCount, len(d.Bytes), len(content))
+			}
+			return ""
+		}
+	default:
+		return []vf.Finding{vf.F("harness", "bad-case", "unknown type %s", c.Type)}
+	}
+	got, err := enc.Marshal()
+	if err != nil {
+		return []vf.Finding{vf.F(subject, "block-built-through-methods-rejected", "%d calls: %v", len(c.Steps), err)}
+	}
+	got = append([]byte{}, got...)
+	n, err := decode(append(append([]byte{}, got...), c.Suffix...))
+	if err != nil {
+		return []vf.Finding{vf.F(subject, "own-encoding-rejected", "%v (encoding %x, %d trailing bytes)", err, got[:min(len(got), 40)], len(c.Suffix))}
+	}
+	var fs []vf.Finding
+	if n != len(got) {
+		fs = append(fs, vf.F(subject, "consumed-differs-from-encoding-length", "consumed %d, encoding is %d bytes (%d trailing bytes)", n, len(got), len(c.Suffix)))
+	}
+	if msg := same(); msg != "" {
+		fs = append(fs, vf.F(subject, "decoded-fields-differ", "%s", msg))
+	}
+	if again, err := reenc(); err != nil || !bytes.Equal(again, got) {
+		fs = append(fs, vf.F(subject, "reencoding-decoded-value-differs", "err %v: %x vs %x", err, again[:min(len(again), 40)], got[:min(len(got), 40)]))
+	}
+	return fs
+}
+
+func TestBlocksThroughMethods(t *testing.T) {
+	s := vf.Begin(t, P, "blocks-built-through-methods")
+	vf.Rapid(s, vf.N(3000, 12000), func(t *rapid.T) apiCase {
+		c := apiCase{Type: rapid.SampledFrom([]string{"Parameters", "Data"}).Draw(t, "type"), Suffix: genSuffix(t)}
+		steps := rapid.IntRange(0, 6).Draw(t, "steps")
+		if c.Type == "Parameters" {
+			room := 255
+			for i := 0; i < steps && room > 0; i++ {
+				if rapid.Bool().Draw(t, "single") {
+					c.Steps = append(c.Steps, apiStep{Op: "AddWord", Word: rapid.Uint16().Draw(t, "word")})
+					room--
+					continue
+				}
+				k := min(room, rapid.SampledFrom([]int{0, 1, 2, 3, 17, 127, 128, 255}).Draw(t, "words"))
+				c.Steps = append(c.Steps, apiStep{Op: "AddWordsFromBytesStream", Bytes: rapid.SliceOfN(rapid.Byte(), 2*k, 2*k).Draw(t, "stream")})
+				room -= k
+			}
+			return c
+		}
+		room := 65535
+		for i := 0; i < steps; i++ {
+			op := rapid.SampledFrom([]string{"Add", "Add", "SetData"}).Draw(t, "op")
+			if op == "SetData" {
+				room = 65535
+			}
+			k := min(room, genLen(t, vf.Size(2000, 65535)))
+			// a drawn unit of one to seven bytes repeated: what matters for a long block is its length
+			unit := rapid.SliceOfN(rapid.Byte(), 1, 7).Draw(t, "unit")
+			b := make([]byte, k)
+			for j := range b {
+				b[j] = unit[j%len(unit)]
+			}
+			c.Steps = append(c.Steps, apiStep{Op: op, Bytes: b})
+			room -= k
+		}
+		return c
+	}, func(c apiCase) []vf.Finding {
+		s.Class(c.subject())
+		return checkBlockAPI(c)
+	}, func(c apiCase) bool { return len(c.Steps) >= 2 })
+}
